@@ -14,6 +14,7 @@ copied verbatim (prelude: spec fns, lemmas, assumed std specs).  Directives:
         //@ entry                ghost code right after the body's opening brace
         //@ loopbody <k>         ghost code right after the k-th loop body's opening brace
         //@ tail                 ghost code right before the tail expression
+        //@ exit                 ghost code at the end of a body that ends with a statement
   //@ end
   //@ region <name> [props=..]   names the verbatim text that follows (lemmas) for reporting
 
@@ -145,7 +146,7 @@ class Gen:
                             dd = t[3:].split()
                             if dd and dd[0] == 'end':
                                 break
-                            if dd and dd[0] in ('spec', 'entry', 'tail'):
+                            if dd and dd[0] in ('spec', 'entry', 'tail', 'exit'):
                                 cur = {'sec': dd[0], 'k': None, 'lines': [], 'uline': j + 1}
                                 sections.append(cur)
                             elif dd and dd[0] in ('loop', 'loopbody', 'loopend'):
@@ -456,6 +457,12 @@ class Gen:
         if opts.get('enumerate') and not is_stub:
             for kk in sorted((int(x) for x in opts['enumerate'].split(',')), reverse=True):
                 text = self.n9_enumerate(text, kk, rel, qual)
+        # N11: `for x in E { B }` -> `{ let mut __it_k = IntoIterator::into_iter(E); while let Some(x) = __it_k.next() { B } }`
+        # where the directive asks for it (`whilelet=<k>`): a `for` loop left by `break` tells Verus nothing about
+        # whether the iterator ran dry; the `while let` form (what `for` means) takes an `ensures` that says it
+        if opts.get('whilelet') and not is_stub:
+            for kk in sorted((int(x) for x in opts['whilelet'].split(',')), reverse=True):
+                text = self.n11_whilelet(text, kk, rel, qual)
         # N6: name the ghost iterator of a `for` loop where the contract asks for it
         for sec in sections:
             if sec['sec'] == 'loop' and sec.get('opts', {}).get('iter'):
@@ -530,6 +537,11 @@ class Gen:
                 off = rsx.fn_tail_offset(text)
                 if off is None:
                     raise rsx.LostAnchor('%s: %s has no tail expression' % (rel, qual))
+            elif kind == 'exit':
+                # ghost code at the end of a body that ends with a statement (no tail expression)
+                if rsx.fn_tail_offset(text) is not None:
+                    raise rsx.LostAnchor('%s: %s now ends with a tail expression' % (rel, qual))
+                off = body_close
             inserts.append((off, sec))
         if is_stub and ('unmut' in opts or re.search(r'\(\s*mut\s+self\b', text)):
             # stubbed signatures only: `mut self` / `mut x: T` binding modes are irrelevant without a body
@@ -892,6 +904,27 @@ class Gen:
         out = text[:lp['kw_off']] + new_head + btxt + ' ; %s += 1; } }' % i_name + text[lp['close'] + 1:]
         self.norm_counts['N9_enumerate_counter'] = self.norm_counts.get('N9_enumerate_counter', 0) + 1
         return out
+
+    def n11_whilelet(self, text, k, rel, qual):
+        loops = rsx.fn_loops(text)
+        if k < 1 or k > len(loops) or loops[k - 1]['kw'] != 'for':
+            raise rsx.LostAnchor('%s: loop %d of %s is not a `for` loop (whilelet=)' % (rel, k, qual))
+        lp = loops[k - 1]
+        masked, _ = rsx.mask(text)
+        head = masked[lp['kw_off']:lp['open']]
+        m = re.match(r'for\s+([A-Za-z_]\w*)\s+in\s+(.*?)\s*$', head, re.S)
+        if not m:
+            raise rsx.LostAnchor('%s: loop %d of %s does not bind a plain name (whilelet=)' % (rel, k, qual))
+        body = masked[lp['open']:lp['close'] + 1]
+        if re.search(r"\b(continue|break)\s*'\w+", body):
+            raise rsx.LostAnchor('%s: loop %d of %s has a labelled jump: N11 does not apply' % (rel, k, qual))
+        expr = text[lp['kw_off'] + m.start(2):lp['kw_off'] + m.end(2)]
+        new_head = '{ let mut __it_%d = ::core::iter::IntoIterator::into_iter(%s); while let Some(%s) = __it_%d.next() ' % (
+            k, expr, m.group(1), k)
+        pad = text[lp['kw_off']:lp['open']].count('\n') - new_head.count('\n')
+        new_head += '\n' * max(0, pad)
+        self.norm_counts['N11_for_as_while_let'] = self.norm_counts.get('N11_for_as_while_let', 0) + 1
+        return text[:lp['kw_off']] + new_head + text[lp['open']:lp['close'] + 1] + ' }' + text[lp['close'] + 1:]
 
     def n5_name_return(self, text, ret):
         masked, _ = rsx.mask(text)
